@@ -201,20 +201,25 @@ CLAIMED = {
  "C17": dict(
    text="Hand model of midi_file_in.MidiFile in two layers, as in the code: the byte parsers reading one stream, and "
         "MIDI_to_Composition (every non-zero delta closes the open entry and opens a new one) over the IEEE-exact float Bar of "
-        "C13. Lean, unbounded: varbyte_toVarbyte (the variable-length reader inverts the writer for EVERY n, consuming exactly "
-        "the encoding); parseFile_fileBytes (mingus's own parsers read every file the writer model produces back as format 1, 72 "
-        "ticks and exactly the events written - composed with C16's refinement these are the specification's events); "
-        "tempo_roundtrip (60000000 div (60000000 div b) = b whenever b(b+1) <= 60000000, i.e. every bpm <= 7745) with "
-        "tempo_counterexample (7999 -> 8000: the format holds whole microseconds) and tempo_event_roundtrip; key_roundtrip (all 30 "
-        "keys, kernel), name_roundtrip (any ASCII name), instrument_roundtrip, meter_roundtrip (any count, any 2^k unit); "
-        "reject_bad_header_tag / short_header / impossible_format / bad_track_tag / bad_first_track for any bytes. Tie A: every "
-        "statement of the reader; Tie B: real write_Composition -> real file -> MIDI_to_Composition vs the model, judged by an "
+        "C13. Lean, unbounded: varbyte_toVarbyte (the variable-length reader inverts the writer for EVERY n); parseFile_fileBytes "
+        "(mingus's own parsers read every file the writer model produces back as exactly the events written); run_view (for "
+        "ANY event list, whatever the float bar accounting decides about bar ends, the closed entries are one per non-zero "
+        "delta with that delta's length and the notes that started since - as long as no placement on an empty bar is refused, "
+        "FitsRun, decidable by fitsRunB_sound); events_read (the writer's specification events of ANY track read as: per bar "
+        "a rest for carried-over time, per sounding entry its pending rest then the entry with its tick length and its notes, "
+        "own channel and velocity); compress_read (joining adjacent rests and dropping trailing ones, that is the written "
+        "sequence); roundtrip_track (write -> parse -> second stage, end to end, composed with C16's refinement); "
+        "F64.round_ne_zero (the IEEE model never rounds a non-zero rational to zero); tempo_roundtrip (every bpm with "
+        "b(b+1) <= 60000000) + tempo_counterexample (7999 -> 8000) + tempo_event_roundtrip; key_roundtrip (30 keys, "
+        "kernel), name/instrument/meter_roundtrip; five reject_* theorems for any bytes. Tie A: every statement of the reader "
+        "and of the writer; Tie B: real write_Composition -> real file -> MIDI_to_Composition vs the model, judged by an "
         "independent flatten-and-merge oracle.",
-   note=TRUST + "Partial: the second stage (delta times -> bar entries with float bar accounting) is modelled and compared with the "
-        "implementation on every generated composition, but 'flattened read = flattened written' is not yet a Lean theorem "
-        "(roundtrip_partial in DESIGN.md); it is decided by the correspondence and the oracle. 'Every bpm the format can hold' is "
-        "read as: the tempo that comes back is 60000000 div (60000000 div bpm). Three defects repaired by fix: commits (7b30158 "
-        "key signatures, c08e47e leading rest, c357aa9 file without tempo).",
+   note=TRUST + "Partial: FitsRun (no placement refused on an empty bar, i.e. no delta longer than a whole bar of the reader's "
+        "current meter) is a hypothesis of run_view / roundtrip_track; it is decidable along the run (fitsRunB_sound), checked in "
+        "the kernel on a demo track, and decided for every generated composition by the correspondence; the entry values are "
+        "the doubles 1/(d/288) and are compared with tick counts by the oracle. 'Every bpm the format can hold' is read as: "
+        "the tempo that comes back is 60000000 div (60000000 div bpm). Three defects repaired by fix: commits (7b30158 key "
+        "signatures, c08e47e leading rest, c357aa9 file without tempo).",
    design="§4 C17"),
  "C18": dict(
    text="Sequencer modelled as a trace machine: hook events, observer registry, low- and high-level notifications; play_Bars "
